@@ -184,6 +184,7 @@ PROPS["C13"] = {
         K("c13_learn_last_writer_wins", "learning: last writer is the only next hop, expiry = now + switch timeout"),
         K("c11_swept_decision_is_not_reused", "a learned entry is gone after its expiry has been swept"),
         K("c12_remove_claims_k2", "disconnect removes the peer's learned entries, keeps the others"),
+        K("c13_learning_flag_table", "hub and router never learn; switch does; normal learns on tap only (flag table of GenericCloud::new)"),
     ],
 }
 
@@ -248,4 +249,64 @@ PROPS["C16"] = {
                       ("quick", "thorough") if n in (0, 4, 16) else T) for n in _rr] +
                    [K("c16_range_decode_total%02d" % n, "Range::read_from total and exact on arbitrary %d bytes" % n,
                       ("quick", "thorough") if n in (0, 2, 6, 18) else T) for n in _rd],
+}
+
+# ------------------------------------------------------------------------------------------------------------ C06
+_c06_quick = {(4, 6), (10, 15), (0, 3), (1, 2), (7, 9), (12, 5), (15, 15), (3, 0)}
+PROPS["C06"] = {
+    "files": ["src/crypto/init.rs", "src/crypto/common.rs"],
+    "functions": ["InitState::select_algorithm", "InitState::algorithm_rank"],
+    "bounds": "each side's list = one of the 16 ordered subsets of {aes128, aes256, chacha20} (all 256 pairs in the thorough tier, "
+              "8 in the quick tier), all six speeds symbolic over every finite non-negative f32 (ties, zero, huge values included), "
+              "both allow-unencrypted flags symbolic; three selections per instance (A about B, B about A, A with reversed list about B)",
+    "outside": "NaN speeds (excluded by the property); lists with a cipher named twice; Crypto::parse_algorithms (string handling); "
+               "'altering the lists in transit makes the handshake fail' (needs the handshake parser, out of reach)",
+    "assumptions": RING_ASSUME[3:] + ["ring::aead::Algorithm equality is identity of the three static algorithm objects (model: id compare)"],
+    "obligations": [K("c06_sel_a%02d_b%02d" % (a, b), "selection symmetric / optimal / order independent for list shapes %d x %d" % (a, b),
+                      ("quick", "thorough") if (a, b) in _c06_quick else T, role="c06_select_symmetric")
+                    for a in range(16) for b in range(16)],
+}
+
+EXTRACT_ASSUME = STD_ASSUME + [
+    "statement slices are extracted textually from /repo on every run and compiled inside wrapper items that declare the "
+    "fields they read with the types of the source (u16 peer timeouts / update frequency, u32 durations, i64 time); a slice "
+    "whose anchor no longer matches makes the check exit 2 (maintenance signal), never pass",
+]
+
+# ------------------------------------------------------------------------------------------------------------ C15
+PROPS["C15"] = {
+    "files": ["src/cloud.rs", "src/config.rs"],
+    "functions": ["GenericCloud::housekeep (announcement-interval slice)", "Config::get_keepalive", "GenericCloud::new (update_freq cast)",
+                  "GenericCloud::reconnect_to_peers (back-off slice)"],
+    "bounds": "none on values: every own keep-alive (u16), every advertised peer timeout (u16) for 0..=3 peers, every own peer "
+              "timeout and keep-alive option (u32), every back-off state inside the invariant; Kani's overflow checks model the "
+              "debug profile, the native replay runs dev and release",
+    "outside": "removal of a silent peer at the next tick and its re-dial (GenericCloud::housekeep's loop over the peer map), "
+               "heterogeneous-mesh simulations, 48 h back-off schedules (the one-step invariant covers any number of steps)",
+    "assumptions": EXTRACT_ASSUME,
+    "obligations": [
+        K("c15_announce_interval_0_peers", "no peers: interval from the default timeout", role="c15_announce_interval"),
+        K("c15_announce_interval_1_peer", "delay is 1 s or < the advertised timeout, never above the own keep-alive, no arithmetic fault", role="c15_announce_interval"),
+        K("c15_announce_interval_2_peers", "same, smallest of two advertised timeouts", role="c15_announce_interval"),
+        K("c15_announce_interval_3_peers", "same, three peers", role="c15_announce_interval"),
+        K("c15_keepalive_default_and_explicit", "get_keepalive: explicit value, else max(timeout/2-60, 1) without fault; update_freq cast", role="c15_keepalive"),
+        K("c15_backoff_step", "back-off invariant 1 <= interval <= 3600, tries <= 10; doubles at most; next = now + interval"),
+    ],
+}
+
+# ------------------------------------------------------------------------------------------------------------ C20
+PROPS["C20"] = {
+    "files": ["src/main.rs"],
+    "functions": ["parse_ip_netmask"],
+    "bounds": "address text '10.0.0.1/' followed by 1, 2 or 3 arbitrary decimal digits (all prefix lengths 0..=999 incl. leading "
+              "zeros), and the form without a slash; format! stubbed (messages are not the subject)",
+    "outside": "the merge precedence of defaults / file / command line and the file round trip (Config::merge_* need structopt and "
+               "serde_yaml under Kani: not built); malformed address strings other than over-long prefixes",
+    "assumptions": EXTRACT_ASSUME + ["std::fmt::format stubbed by an empty string"],
+    "obligations": [
+        K("c20_netmask_one_digit", "prefix 0..=9: mask with that many leading ones, never a panic", role="c20_netmask", timeout={"quick": 600}),
+        K("c20_netmask_two_digits", "prefix 00..=99: Ok iff <= 32 with the right mask", role="c20_netmask", timeout={"quick": 600}),
+        K("c20_netmask_three_digits", "prefix 000..=999", T, role="c20_netmask"),
+        K("c20_netmask_default_24", "/24 when omitted"),
+    ],
 }
